@@ -1,4 +1,5 @@
 import GA.M.Unpack
+import GA.M.Pack
 /-
   Line protocol for filesystem cases (DESIGN A.7).
     case    := op SP opts SP dest SP root SP umask SP "T" n node* SP "E" m entry*
@@ -184,7 +185,7 @@ def renderFS (fs : FS) (top : Path) : String :=
       let mt := match n.mtime with | some t => toString t | none => "*"
       let cap := match n.xattrs.find? (fun x => x.1 = capKey) with | some x => showStr x.2 | none => "-"
       let line := String.intercalate " " [showStr e.1, kindChar n.kind, toString n.perm, toString n.uid,
-        toString n.gid, (if n.kind == .sym then "*" else mt), (if n.kind == .reg then showStr n.data else "-"),
+        toString n.gid, mt, (if n.kind == .reg then showStr n.data else "-"),
         (if n.kind == .sym then showStr n.target else "-"),
         toString (if n.kind == .chr || n.kind == .blk then n.rdev.1 else 0),
         toString (if n.kind == .chr || n.kind == .blk then n.rdev.2 else 0), toString g, cap]
@@ -244,4 +245,83 @@ def runFsCase (c : FsCase) : String :=
 def handleFs (ws : List String) : String :=
   match (pCase.run ws) with
   | some (c, _) => runFsCase c
+  | none => "bad-case"
+
+/-! ### pack cases -/
+
+def parsePat (s : String) : Option Pat :=
+  match s.splitOn ":" with
+  | [e, t, hs] => do
+    let text ← strOfHex t
+    let hits := if hs = "" then [] else (hs.splitOn "|").filterMap strOfHex
+    pure { text := text, excl := e = "1", hits := hits }
+  | _ => none
+
+def parseRebase (kv : String) : Option (Str × Str) :=
+  match kv.splitOn ":" with
+  | [k, r] => match strOfHex k, strOfHex r with
+    | some a, some b => some (a, b)
+    | _, _ => none
+  | _ => none
+
+def parsePackOpts (s : String) : PackOpts :=
+  if s = "-" then {} else
+  (s.splitOn ",").foldl (fun (o : PackOpts) kv =>
+    match kv.splitOn "=" with
+    | ["inc", v] => { o with includes := (v.splitOn ";").filterMap strOfHex }
+    | ["isd", _] => { o with includeSourceDir := true }
+    | ["rebase", v] => { o with rebase := (v.splitOn ";").filterMap parseRebase }
+    | ["pats", v] => { o with pats := (v.splitOn ";").filterMap parsePat }
+    | ["uidmap", v] => { o with uidMaps := parseRanges v }
+    | ["gidmap", v] => { o with gidMaps := parseRanges v }
+    | ["chown", v] => match (v.splitOn ":").map String.toNat? with
+        | [some u, some g] => { o with chownOpts := some (u, g) }
+        | _ => o
+    | ["overlay", _] => { o with overlay := true }
+    | _ => o) {}
+
+def showTyp : Typ → String
+  | .reg => "reg" | .link => "link" | .sym => "sym" | .chr => "chr" | .blk => "blk" | .dir => "dir"
+  | .fifo => "fifo" | .xglobal => "xglobal" | .other => "other"
+
+def renderEntry (e : Entry) : String :=
+  String.intercalate " " ([showTyp e.typ, showStr e.name, showStr e.linkname, toString e.mode, toString e.uid,
+    toString e.gid, (if e.mtime = implicitT then "*" else toString e.mtime), toString e.size, showStr e.body, toString e.devmajor, toString e.devminor,
+    toString e.xattrs.length] ++ e.xattrs.flatMap (fun x => [showStr x.1, showStr x.2]))
+
+def renderEntries (es : List Entry) : String :=
+  "E " ++ toString es.length ++ (if es.isEmpty then "" else " " ++ String.intercalate " " (es.map renderEntry))
+
+structure PackCase where
+  op : String
+  opts : PackOpts
+  src : Str
+  root : Str
+  nodes : List NodeSpec
+
+def pPackCase : P PackCase := do
+  let op ← tok
+  let o ← tok
+  let src ← pStr
+  let root ← pStr
+  let _ ← pNat
+  let t ← tok
+  if t ≠ "T" then failure
+  let n ← pNat
+  let nodes ← pMany pNode n
+  pure { op, opts := parsePackOpts o, src, root, nodes }
+
+def handlePack (ws : List String) : String :=
+  match pPackCase.run ws with
+  | some (c, _) =>
+    let fs := ensureDirs (buildFS c.nodes) worldTop
+    let w : World := { fs := fs, root := [], umask := 0o022 }
+    if c.op = "tar" then
+      let (es, _) := (tarP c.src c.opts).run w
+      "ok " ++ renderEntries es
+    else if c.op = "tar-chroot" then
+      match (chrootTarP c.src c.root c.opts).run w with
+      | (some es, _) => "ok " ++ renderEntries es
+      | (none, _) => "err E 0"
+    else "bad-op"
   | none => "bad-case"
